@@ -3,15 +3,17 @@
    Model: Model/Sys.v (client model x server model x two FIFO wires), arbitrary caller and handler programs
    ([pol_any]), any number of streams, any interleaving.
 
-   Proved here: the transport-level half of the property, per stream id and position by position - what a
+   Proved here: (1) the transport-level half of the property, per stream id and position by position - what a
    side has read for a stream is a prefix of what the other side wrote for it (equal once wires and read
-   queues are empty). The API-level clauses (handler's RecvMsg results / caller's RecvMsg results as
-   prefixes, EOF soundness and completeness) need the per-id FIFO facts of the two components, which are
-   not proved yet: they are NOT claimed as theorems (see docs/notes-sy.md); the boolean predicates of
-   Check/C02c.v judge them on every recorded history of the real code. *)
+   queues are empty); (2) two API-level clauses, end to end: the handler observes io.EOF only if its caller
+   half-closed that stream ([C02_handler_eof_sound_partial]), and every message a handler received is the
+   body of an envelope its caller wrote on that stream ([C02_handler_recv_was_sent_partial]: no fabrication,
+   no alteration towards the handler). NOT proved: the order / no-loss / no-duplication clauses at API level
+   and the caller-side EOF clauses: they need per-id FIFO facts of the two components (docs/notes-sy.md);
+   the boolean predicates of Check/C02c.v judge all clauses on every recorded history of the real code. *)
 From Coq Require Import List ZArith Bool.
 Import ListNotations.
-From Goat Require Import Model.Client Model.Server Model.Sys Proofs.SysLog Proofs.SysProofs Proofs.SysC01 Proofs.SysC02.
+From Goat Require Import Model.Client Model.Server Model.Sys Proofs.SysLog Proofs.SysProofs Proofs.SysC01 Proofs.SysC02 Proofs.SysC02b.
 Open Scope Z_scope.
 
 Theorem C02_wire_c2s_prefix_partial : forall pol ls s i, Sys.lrun pol Sys.init ls = Some s ->
@@ -31,6 +33,21 @@ Theorem C02_wire_complete_partial : forall pol ls s i, Sys.lrun pol Sys.init ls 
 Proof. exact wire_complete_id. Qed.
 Print Assumptions C02_wire_complete_partial.
 
+(* the handler observes io.EOF only if its caller half-closed the stream: the OK trailer with the stream's id
+   is in the client's write log (CloseSend writes it, nothing else does) *)
+Theorem C02_handler_eof_sound_partial : forall pol ls s h, Sys.lrun pol Sys.init ls = Some s ->
+  In (SvOp h ORecvEof) (Server.log (sv s)) ->
+  exists k, nth_error (hs (sv s)) h = Some k /\ In (EvWrite (close_env (fid (h_req k)))) (Client.log (cl s)).
+Proof. exact C02_handler_eof_sound. Qed.
+Print Assumptions C02_handler_eof_sound_partial.
+
+(* every (non-empty) message a handler received is the body of an envelope the caller wrote with that stream's id *)
+Theorem C02_handler_recv_was_sent_partial : forall pol ls s h b, Sys.lrun pol Sys.init ls = Some s ->
+  In (SvOp h (ORecvMsg b)) (Server.log (sv s)) -> b <> 0 ->
+  exists k e, nth_error (hs (sv s)) h = Some k /\ In (EvWrite e) (Client.log (cl s)) /\ eid e = fid (h_req k) /\ ebody e = Some b.
+Proof. exact C02_handler_recv_was_sent. Qed.
+Print Assumptions C02_handler_recv_was_sent_partial.
+
 (* a concrete run: one stream, two messages echoed, half-close, the handler sees EOF and returns nil, the
    caller sees both messages and then io.EOF; the final state is quiescent with empty wires *)
 Example C02_demo :
@@ -41,6 +58,7 @@ Example C02_demo :
       /\ filter (fun e => match e with SvOp _ _ => true | _ => false end) (Server.log (sv s))
         = [SvOp 0 (ORecvMsg 11); SvOp 0 OOk; SvOp 0 (ORecvMsg 12); SvOp 0 OOk; SvOp 0 ORecvEof]
       /\ Sys.quiescent s = true /\ c2s s = [] /\ s2c s = []
+      /\ In (SvOp 0 ORecvEof) (Server.log (sv s)) /\ In (EvWrite (close_env 1)) (Client.log (cl s))
   | None => False
   end.
 Proof. vm_compute. tauto. Qed.
